@@ -51,6 +51,11 @@ MEANS = [0.0, 37.5, -1234.5]
 REFINE = [1, 2, 3]
 
 
+def decoy():
+    from mc.lib import decoy as decoy_mod
+    decoy_mod.functions()
+
+
 def BOUND(tier):
     return ('8 Sy sets x 7 grids x 3 refinements x 3 means at function '
             'level; 3 datasets x 8 parameter files x 2 output forms at '
